@@ -440,7 +440,9 @@ def promotion_model(facts, ty):
                             if it_['name'] == name and self.ev.facts.has_body(it_['def']):
                                 return self.apply_fn(self.ev.facts.body(it_['def']), [recv] + [self.val(a, env) for a in e.get('args', [])])
             return super()._mcall(e, env)
-    desc = T({'t': IT({'a': 1, 'n': IT({'b': 2})}), 'aoi': [IT({'x': 1}), IT({'x': 2})], 'mixed': [1, IT({'c': IT({'d': 1})})], 'nested': [[IT({'e': 1})]], 'after': IT({'z': 1}), 'v': 7})
+    desc = T({'t': IT({'a': 1, 'n': IT({'b': 2, 'deep': IT({'k': [IT({'m': 1}), IT({'m': 2})]})})}), 'aoi': [IT({'x': 1, 'in': IT({'y': [IT({'q': 1})]})}), IT({'x': 2})],
+              'mixed': [1, IT({'c': IT({'d': IT({'e': IT({'f': 1})}), 'arr': [IT({'g': 1}), IT({'g': 2})]}), 'sib': IT({'h': IT({'i': 1})})}), [IT({'j': IT({'k': 1})})]],
+              'nested': [[IT({'e': 1})], [[IT({'l': IT({'m': 1})})]]], 'after': IT({'z': 1, 'zz': IT({'y': 1})}), 'v': 7, 'last': [IT({'w': 1})]})
     root = table_model(desc)
     w = FmtWalk(Evaluator(facts))
     visitor = w._default_of(base)
@@ -452,7 +454,7 @@ def promotion_model(facts, ty):
     if plain_table(root) != logical(desc):
         out.append(f'the content changed: {plain_table(root)!r:.200} instead of {logical(desc)!r:.200}')
     kinds = {keyname(k): deref(v)[1].rsplit('::', 1)[-1] for k, v in deref(root[2]['items']).pairs}
-    want = {'t': 'Table', 'aoi': 'ArrayOfTables', 'mixed': 'Value', 'nested': 'Value', 'after': 'Table', 'v': 'Value'}
+    want = {'t': 'Table', 'aoi': 'ArrayOfTables', 'mixed': 'Value', 'nested': 'Value', 'after': 'Table', 'v': 'Value', 'last': 'ArrayOfTables'}
     if kinds != want:
         out.append(f'at the top level the entries are {kinds}, expected {want} (an inline table / an array of inline tables outside a value becomes a [table] / [[table]], everything else stays)')
 
